@@ -22,6 +22,9 @@ const (
 	FaultCloseMid    = "close_mid"    // connection closed in the middle of the reply
 	FaultCloseAfter  = "close_after"  // honest reply, then the connection is closed
 	FaultTruncBody   = "trunc"        // well-delimited but truncated honest body
+	// FaultFailSame: SSH_AGENT_FAILURE now and for every later request with the very same bytes - an agent that
+	// refuses this key, however often it is asked (not part of AllFaults: the worlds opt in)
+	FaultFailSame = "fail_same"
 )
 
 // SlowPrefix marks what is not a fault at all: "slow:<seconds>" makes the peer take that long (on the clock
@@ -66,6 +69,7 @@ type Peer struct {
 	reqIndex int
 	perKind  map[string]int
 	fired    map[int]bool
+	refused  [][]byte // requests that are refused whenever they come again (FaultFailSame)
 }
 
 // KindOf maps an agent opcode to a request kind.
@@ -187,6 +191,19 @@ func (p *Peer) Serve(c io.ReadWriteCloser) int {
 		idx := p.reqIndex
 		p.reqIndex++
 		p.perKind[kind]++
+		again := false
+		for _, r := range p.refused {
+			if bytes.Equal(r, req) {
+				again = true
+			}
+		}
+		if again {
+			if p.OnFault != nil {
+				p.OnFault(kind, FaultFailSame, idx)
+			}
+			c.Write(frame([]byte{5}))
+			continue
+		}
 		honest := func() []byte {
 			if p.Intercept != nil {
 				if b := p.Intercept(kind, req, func() []byte { return Process(p.Agent, req) }); b != nil {
@@ -218,6 +235,10 @@ func (p *Peer) Serve(c io.ReadWriteCloser) int {
 			}
 			switch fault {
 			case FaultFail:
+				c.Write(frame([]byte{5}))
+				continue
+			case FaultFailSame:
+				p.refused = append(p.refused, append([]byte(nil), req...))
 				c.Write(frame([]byte{5}))
 				continue
 			case FaultEmpty:
